@@ -47,7 +47,14 @@ RULE = ("datasets are drawn from 10 profiles (every profile occurs in both tiers
         "merge-sort chunks, and with a small confidence chunk (known finding when a float spectrum-key column is de-duplicated); "
         "on every second dataset the same settings given through the MOKAPOT_* environment "
         "variables to a fresh interpreter with another PYTHONHASHSEED; every variant runs with another state of the global "
-        "numpy / random generators. Compared with the baseline: feature columns of every file, brew scores and descs, which "
+        "numpy / random generators. Own stream (round 5; quick 3, thorough 6 datasets, 5-6 / 9-10 variants each): tables with EMPTY cells "
+        "in spectrum-key columns — a float key (ret_time / ExpMass), filename, ScanNr, all key columns at once, a random subset per "
+        "spectrum; for whole spectra with several PSMs (must stay one spectrum: NaN in text, null in Parquet), for a part of the PSMs "
+        "of a spectrum (two spectra then), spectra differing in the lost cell only (one spectrum then); de-duplication on (off in one "
+        "thorough dataset), transparent and real learner; variants: confidence chunk small (1-7) and at the spectrum count, "
+        "(confidence, merge-sort) pairs, all chunks small, Parquet row groups x small confidence / merge-sort chunks, .tab, workers, "
+        "environment variables; the chunk-free model (Confidence.v: equal key cells, the empty ones included, are one spectrum) "
+        "decides the baseline. Compared with the baseline: feature columns of every file, brew scores and descs, which "
         "rows each fold model scored, result file names, header, every cell of every row (ids, peptide, proteins, level "
         "columns, PEP exactly; score to 1e-9 because it passes through text; q-values exactly), row order, leftover files. "
         "Tied scores: rows may be permuted among equal scores only; when an entity has two top PSMs with the same score (any "
@@ -117,7 +124,7 @@ def _is_feature(col):
 
 def _gen_dataset(rng, prof, thorough):
     nfiles = _pick(rng, prof.get("nfiles", (1, 1, 2)))
-    nkey = rng.choice([1, 2, 3, 4])
+    nkey = _pick(rng, prof.get("nkey", [1, 2, 3, 4]))
     nfeat = _pick(rng, prof.get("nfeat", (3, 3, 3, 6, 1, 17)))
     ties = bool(prof.get("ties"))
     levels = [lv for lv in LEVEL_COLS if rng.random() < (0.6 if prof.get("levels") else 0.12)]
@@ -290,6 +297,111 @@ def _gen_variants(rng, base, thorough, ds_index=0):
     return variants
 
 
+# ----------------------------------------------------------------------------- missing values in spectrum-key columns
+# A spectrum whose retention time / mass / file name / scan number was not recorded has an EMPTY cell in a column that
+# identifies the spectrum.  The table is still one table: PSMs with equal key cells, the empty ones included, are one
+# spectrum (pandas drop_duplicates inside a chunk, the Python tuple of the generated table in the model), whatever the
+# confidence chunks, and whether the cell is a NaN (text) or a null (Parquet).
+MK_PROFILES = [
+    {"name": "missing-key-float", "mk": "float", "nkey": (2, 3, 4), "dedup": True, "learner": "transparent", "nfiles": 1},
+    {"name": "missing-key-filename", "mk": "filename", "nkey": (3, 4), "dedup": True, "learner": "transparent", "nfiles": (1, 2)},
+    {"name": "missing-key-all", "mk": "all", "nkey": (2, 3, 4), "dedup": True, "learner": "transparent", "nfiles": (1, 2)},
+    {"name": "missing-key-scan", "mk": "ScanNr", "nkey": (1, 2, 4), "dedup": True, "learner": "transparent", "nfiles": 1},
+    {"name": "missing-key-mixed-nodedup", "mk": "mixed", "nkey": (3, 4), "dedup": False, "learner": "transparent", "nfiles": (1, 2)},
+    {"name": "missing-key-mixed-percolator", "mk": "mixed", "nkey": (3, 4), "dedup": True, "learner": "percolator", "nfiles": 1,
+     "nfeat": (3, 6)},
+]
+
+
+def _punch_keys(rng, files, mode):
+    """empty cells in spectrum-key columns; -> what the tables now contain.  Whole spectra lose a value (all their PSMs: the
+    several PSMs of such a spectrum must still be recognised as one spectrum), some spectra lose it in a part of their PSMs
+    only (two spectra then), and spectra that differed in the lost column only become one"""
+    info = {"cols": set(), "multi": False, "partial": False, "allcols": False, "merged": False, "rows": 0}
+    for f in files:
+        cols = [x for x in SPEC_COLS if x in f["data"]]
+        n = len(f["targets"])
+        before = {}
+        for r in range(n):
+            before.setdefault(tuple(f["data"][x][r] for x in cols), []).append(r)
+        specs = sorted(before.values())
+        multi = [g for g in specs if len(g) >= 2]
+        single = [g for g in specs if len(g) == 1]
+        chosen = rng.sample(multi, min(len(multi), max(3, len(multi) // 3))) + rng.sample(single, min(len(single), 2))
+        if mode == "float":
+            fixed = [rng.choice([x for x in cols if x in ("ret_time", "ExpMass")])]
+        elif mode in ("filename", "ScanNr"):
+            fixed = [mode]
+        else:
+            fixed = None
+        for gi, g in enumerate(chosen):
+            if mode == "all" and gi % 2 == 0:
+                which = list(cols)
+                info["allcols"] = True
+            elif fixed is not None:
+                which = fixed
+            else:
+                which = rng.sample(cols, rng.randint(1, len(cols)))
+            rows = list(g)
+            if len(g) >= 2 and gi % 4 == 3:
+                rows = rng.sample(g, rng.randint(1, len(g) - 1))
+                info["partial"] = True
+            elif len(g) >= 2:
+                info["multi"] = True
+            for x in which:
+                info["cols"].add(x)
+                for r in rows:
+                    f["data"][x][r] = None
+            info["rows"] += len(rows)
+        # spectra that differed in the lost cells only are one spectrum now
+        origin = {r: gi for gi, g in enumerate(specs) for r in g}
+        after = {}
+        for r in range(n):
+            after.setdefault(tuple(f["data"][x][r] for x in cols), set()).add(origin[r])
+        info["merged"] = info["merged"] or any(len(v) > 1 for v in after.values())
+    return info
+
+
+def _gen_mk_variants(rng, base, thorough, ds_index, mk):
+    files = base["files"]
+    ns = [len(f["targets"]) for f in files]
+    nmax = max(ns)
+    f0 = files[0]
+    nspec = _distinct(f0, [x for x in SPEC_COLS if x in f0["data"]])
+
+    def clean(vs):
+        return sorted(set(max(1, int(v)) for v in vs))
+    conf = clean([1, 2, 3, 5, 7, nmax // 3 + 1, nmax // 2 + 1, nspec - 1, nspec, nspec + 1, max(2, mk["rows"])])
+    variants = []
+    small = rng.choice([1, 2, 3, 5, 7])       # the PSMs of nearly every spectrum fall into different chunks
+    for v in [small] + rng.sample([x for x in conf if x != small], 2 if thorough else 1):
+        variants.append({"name": f"confidence={v}", "chunks": {"confidence": v}})
+    c = rng.choice([2, 3, 7, nmax // 2 + 1])
+    m = max(1, rng.choice([1, 2, c - 1, c, c + 1]))
+    variants.append({"name": f"confidence+mergesort={c},{m}", "chunks": {"confidence": c, "mergesort": m}})
+    variants.append({"name": "all-small", "chunks": dict({n: rng.choice([1, 2, 3]) for n in STREAMS if n != "colscan"},
+                                                         colscan=rng.choice([1, 2, 3]))})
+    # Parquet carries the empty cell as a null (None), text as NaN: the same table
+    rg = rng.choice(clean([1, 2, 3, 7, nmax // 2 + 1, nmax]))
+    variants.append({"name": f"parquet-rg={rg}+confidence", "fmt": "parquet", "row_group": rg,
+                     "chunks": {"confidence": rng.choice([1, 2, 3, 7]), "mergesort": rng.choice([1, 2, 3])}})
+    if thorough:
+        variants.append({"name": f"parquet-rg={nmax}", "fmt": "parquet", "row_group": nmax, "chunks": {}})
+        variants.append({"name": "suffix=.tab", "suffix": ".tab", "chunks": {"confidence": rng.choice([2, 7]), "rowscan": rng.choice([1, 2, 5])}})
+        w = rng.choice([2, 3, 4, 8])
+        variants.append({"name": f"workers={w}+sleeps+chunks", "workers": w, "read_workers": rng.choice([1, w]),
+                         "sleep_seed": rng.randint(1, 10 ** 6),
+                         "chunks": {"trainread": rng.choice([1, 2, 3, 5]), "predict": rng.choice([2, 3, 7]),
+                                    "confidence": rng.choice([2, 3, 5]), "rowscan": rng.choice([1, 3, 7])}})
+    if ds_index % 3 == 0:
+        variants.append({"name": "env", "env": True, "hashseed": rng.randint(1, 10 ** 6),
+                         "chunks": {"confidence": rng.choice([2, 3, 7]), "mergesort": rng.choice([1, 2, 3]), "rowscan": rng.choice([2, 3, 7])},
+                         "workers": 1, "read_workers": 1})
+    for v in variants:
+        v["np_seed"] = rng.randint(1, 2 ** 31 - 1)
+    return variants
+
+
 def gen(ctx):
     cases = []
     rng = ctx.sub("c05")
@@ -305,6 +417,25 @@ def gen(ctx):
                                   ("shared-result-files", info["nfiles"] > 1 and not base["prefixes"]), ("single-object", base["single"]),
                                   ("proba", base["est_mode"] == "proba"), ("features>=15", info["nfeat"] >= 15)) if on]
         dtags.append("labels=" + info["label_enc"])
+        for v in variants:
+            c = dict(base)
+            c["variant"] = v
+            c["tags"] = ["pipeline", "variant:" + v["name"].split("=")[0]] + dtags
+            cases.append(c)
+    # round 5: missing values in SPECTRUM-KEY columns (own stream, after the existing ones: their cases keep their seeds)
+    rng = ctx.sub("c05-missing-key")
+    for k in range(6 if ctx.thorough else 3):
+        prof = MK_PROFILES[k % len(MK_PROFILES)]
+        base, info = _gen_dataset(rng, prof, ctx.thorough)
+        mk = _punch_keys(rng, base["files"], prof["mk"])
+        base["profile"] = prof["name"]
+        variants = _gen_mk_variants(rng, base, ctx.thorough, k, mk)
+        dtags = ["profile=" + prof["name"], "missing-key", base["learner"], f"files={info['nfiles']}", f"folds={base['folds']}",
+                 f"keycols={base['nkey']}", "labels=" + info["label_enc"]]
+        dtags += ["missing:" + c for c in sorted(mk["cols"])]
+        dtags += [t for t, on in (("missing-key:whole-spectrum-several-psms", mk["multi"]), ("missing-key:part-of-a-spectrum", mk["partial"]),
+                                  ("missing-key:all-key-columns", mk["allcols"]), ("missing-key:spectra-merged-by-the-gap", mk["merged"]),
+                                  ("nodedup", not base["dedup"]), ("norollup", not base["rollup"])) if on]
         for v in variants:
             c = dict(base)
             c["variant"] = v
